@@ -3,7 +3,9 @@ From Coq Require Export List ZArith NArith Bool String Ascii Lia.
 From Coq Require Import DecimalString Decimal DecimalZ DecimalN.
 Export ListNotations.
 Open Scope string_scope.
+Open Scope list_scope.
 Open Scope Z_scope.
+Infix "+++" := String.append (right associativity, at level 60).
 
 (** * Results.  Panics are values (C07); OutOfModel marks behaviour the model
       deliberately does not define (excluded from comparison and counted). *)
